@@ -38,6 +38,15 @@ for dp, _, fs in os.walk(src):
         s, k = re.subn(r"(?<![:\w])thread_local!", "shuttle::thread_local!", s); n += k
         s, k = re.subn(r"(?<![:\w])lazy_static!", "shuttle::lazy_static!", s); n += k
         s, k = re.subn(r"\bstd::hint::spin_loop\b", "shuttle::hint::spin_loop", s); n += k
+        # std's LocalKey<Cell<T>> / LocalKey<RefCell<T>> convenience methods (set, get, take, replace, with_borrow,
+        # with_borrow_mut) do not exist on shuttle's LocalKey: calls on the thread-locals declared in this file go through an
+        # extension trait injected into the crate root (lib.rs), under other names (shuttle's own private `get` would shadow)
+        tls = re.findall(r"thread_local!\s*[({][^}]*?\bstatic\s+(?:mut\s+)?([A-Z_][A-Z0-9_]*)\s*:", s, flags=re.S)
+        tls += re.findall(r"^\s*(?:pub(?:\([a-z]+\))?\s+)?static\s+([A-Z_][A-Z0-9_]*)\s*:\s*(?:std::cell::)?(?:Cell|RefCell)<", s, flags=re.M)
+        for name in set(tls):
+            s, k = re.subn(r"\b%s\s*\.\s*(set|get|take|replace|with_borrow_mut|with_borrow)\s*\(" % re.escape(name), lambda m: "%s.tl_%s(" % (name, m.group(1)), s); n += k
+            if k:
+                report.setdefault("thread_local_convenience_calls", []).append({"file": os.path.relpath(p, src), "name": name, "calls": k})
         if s != o:
             open(p, "w").write(s)
             report["files"][os.path.relpath(p, src)] = n
@@ -47,6 +56,54 @@ for dp, _, fs in os.walk(src):
         for m in re.finditer(r"\b(?:std|core)::sync::\w+", s):
             if not f.startswith("verif_hooks"):
                 report["left_on_std"].append({"file": os.path.relpath(p, src), "token": m.group(0)})
+
+# the extension trait for thread-local convenience calls
+lib = os.path.join(src, "lib.rs")
+ls = open(lib).read()
+if "trait VerifTlExt" not in ls:
+    ls += '''
+
+#[doc(hidden)]
+#[allow(dead_code, missing_docs)]
+pub trait VerifTlCell<T> {
+	fn tl_set(&'static self, v: T);
+	fn tl_get(&'static self) -> T where T: Copy;
+	fn tl_take(&'static self) -> T where T: Default;
+	fn tl_replace(&'static self, v: T) -> T;
+}
+impl<T: 'static> VerifTlCell<T> for shuttle::thread::LocalKey<std::cell::Cell<T>> {
+	fn tl_set(&'static self, v: T) { self.with(|c| c.set(v)) }
+	fn tl_get(&'static self) -> T where T: Copy { self.with(|c| c.get()) }
+	fn tl_take(&'static self) -> T where T: Default { self.with(|c| c.take()) }
+	fn tl_replace(&'static self, v: T) -> T { self.with(|c| c.replace(v)) }
+}
+#[doc(hidden)]
+#[allow(dead_code, missing_docs)]
+pub trait VerifTlExt<T> {
+	fn tl_set(&'static self, v: T);
+	fn tl_take(&'static self) -> T where T: Default;
+	fn tl_replace(&'static self, v: T) -> T;
+	fn tl_with_borrow<R>(&'static self, f: impl FnOnce(&T) -> R) -> R;
+	fn tl_with_borrow_mut<R>(&'static self, f: impl FnOnce(&mut T) -> R) -> R;
+}
+impl<T: 'static> VerifTlExt<T> for shuttle::thread::LocalKey<std::cell::RefCell<T>> {
+	fn tl_set(&'static self, v: T) { self.with(|c| *c.borrow_mut() = v) }
+	fn tl_take(&'static self) -> T where T: Default { self.with(|c| c.take()) }
+	fn tl_replace(&'static self, v: T) -> T { self.with(|c| c.replace(v)) }
+	fn tl_with_borrow<R>(&'static self, f: impl FnOnce(&T) -> R) -> R { self.with(|c| f(&c.borrow())) }
+	fn tl_with_borrow_mut<R>(&'static self, f: impl FnOnce(&mut T) -> R) -> R { self.with(|c| f(&mut c.borrow_mut())) }
+}
+'''
+    open(lib, "w").write(ls)
+for dp, _, fs in os.walk(src):
+    for f in fs:
+        if f.endswith(".rs") and f != "lib.rs":
+            p = os.path.join(dp, f)
+            s = open(p).read()
+            if ".tl_" in s and "VerifTlCell" not in s:
+                # bring the traits into scope after the leading attributes / doc comments of the module
+                s = "#[allow(unused_imports)]\nuse crate::{VerifTlCell as _, VerifTlExt as _};\n" + s if not s.lstrip().startswith("//!") and not s.lstrip().startswith("#![") else re.sub(r"((?:^(?://!|#!\[).*\n)+)", lambda m: m.group(1) + "#[allow(unused_imports)]\nuse crate::{VerifTlCell as _, VerifTlExt as _};\n", s, count=1, flags=re.M)
+                open(p, "w").write(s)
 
 ct = os.path.join(root, "rcgen", "Cargo.toml")
 t = open(ct).read()
